@@ -143,3 +143,47 @@ def sb_digest(entry):
 
 MODES = ["644", "600", "640", "755", "444", "664"]
 UMASKS = ["022", "077", "002"]
+
+
+_DOMAINS = None
+
+
+def option_domains():
+    """Documented values of rule options, harvested from the tree's own documentation
+    (docs/*.rst: `.. |<option>__<value>| replace:: :code:`<value>`` substitutions) plus three
+    options documented in prose.  The vocabulary for generated configurations."""
+    global _DOMAINS
+    if _DOMAINS is None:
+        import re
+
+        dom = {}
+        docs = os.path.join(REPO, "docs")
+        if not os.path.isdir(docs):
+            docs = "/repo/docs"
+        for f in sorted(glob.glob(os.path.join(docs, "*.rst"))):
+            try:
+                t = open(f, encoding="utf-8", errors="replace").read()
+            except OSError:
+                continue
+            for m in re.finditer(r"\.\. \|(\w+?)__(\w+)\| replace::\s*\n\s+:code:`([^`]+)`", t):
+                dom.setdefault(m.group(1), set()).add(m.group(3))
+        dom = {k: sorted(v) for k, v in dom.items() if len(v) >= 2}
+        dom.pop("standard", None)
+        dom.pop("method", None)
+        dom.pop("action", None)
+        dom["case"] = ["lower", "upper"]
+        dom["indent_size"] = [2, 3, 4]
+        dom["length"] = [40, 80, 120]
+        _DOMAINS = dom
+    return _DOMAINS
+
+
+def random_options(rng, rule, density=1.0):
+    """rule: entry of runner.RULES.  A random documented value for each of its options that has a
+    known domain (each with probability `density`)."""
+    dom = option_domains()
+    out = {}
+    for o in rule[6]:
+        if o in dom and rng.random() < density:
+            out[o] = rng.choice(dom[o])
+    return out
